@@ -345,8 +345,11 @@ func derivedRLWE(c *engine.Chooser, tag string, p rlwe.Parameters) {
 			}
 		}
 		want := new(big.Int).Div(new(big.Int).Lsh(big.NewInt(1), 64), new(big.Int).SetUint64(max))
-		if got := p.QiOverflowMargin(lvl); big.NewInt(int64(got)).Cmp(want) != 0 {
-			fail("QiOverflowMargin", "level %d: %d, floor(2^64/%d) = %v", lvl, got, max, want)
+		// the library computes the quotient in float64: exact up to 2^53, a relative 2^-50 beyond (tiny moduli)
+		got := big.NewInt(int64(p.QiOverflowMargin(lvl)))
+		diff := new(big.Int).Abs(new(big.Int).Sub(got, want))
+		if diff.Cmp(new(big.Int).Rsh(want, 50)) > 0 {
+			fail("QiOverflowMargin", "level %d: %v, floor(2^64/%d) = %v", lvl, got, max, want)
 		}
 	}
 	// Galois elements: 5^k mod NthRoot, inverse, discrete log, conjugation
